@@ -193,7 +193,6 @@ func (it *Interp) iterMethod(n *Native, name string, a []Val) Val {
 	return nil
 }
 
-
 // knownPrefix returns the leading bytes of an opaque string term that are fixed by its construction, and whether
 // that is the whole string.
 func (it *Interp) knownPrefix(t *Term) (string, bool) {
